@@ -26,7 +26,7 @@ CLAIMED = {
     "C06": ("fault_enumeration",
             "deterministic simulation with fault injection: per world every truncation point / read fault / bit flip / include cycle / hostile mutation, x 6 commands, in crash- and hang-detecting worker processes",
             "For each seeded world the fault space is enumerated one fault at a time: the file torn at every byte (thorough; ~30-60 biased cuts per file in quick), vanish/EIO/permission/canonicalize failure/bit flip on each file, include cycles, grammar-aware mutations, deep nesting, huge literals, zero divisors; each faulted world is fed to format, accounts, balance, register, flatten and eval. Oracle is totality only: Ok or Err with a message; panics are caught and signed by call site, aborts/stack overflows/hangs are detected by the parent from worker death or silence and re-executed in a fresh process.",
-            "Stack-overflow thresholds are those of an 8 MiB thread in the opt-level-2 simulation build. Numbers outside the decimal range are exempt by the statement (counted as C06/out-of-range). One known finding (deep parenthesis nesting) is listed in known_findings.json."),
+            "Stack-overflow thresholds are those of an 8 MiB thread in the opt-level-2 simulation build. Numbers outside the decimal range are exempt by the statement (counted as C06/out-of-range)."),
     "C08": ("exploration",
             "deterministic simulation: every expression tree with up to 2 (quick) / 3 (thorough) leaves plus seeded typed and untyped trees to depth 5, at 7 placements, evaluated by 2-4 simulated processes with different hash seeds and compared with an independent evaluator",
             "Expression trees over literals {0, 1, 3, 0.5} x {bare, AAA, BBB, CCC}, the four operators and unary minus are enumerated exhaustively for small sizes and generated with a seed beyond that (well-typed by construction, single-commodity, and unconstrained). Each is placed as eval argument, posting amount, cost, total cost, lot price, assignment and balance assertion; the simulator's renderer writes parentheses only where the tree needs them, so precedence and associativity are the parser's. Values must equal the reference evaluator's (exact without division), ill-typed expressions must be rejected, and every simulated process (hash seed) must answer identically; a third of the eval cases also go through `okane primitive eval`.",
